@@ -320,7 +320,8 @@ def judge(kind, env, sched):
         called = [j for j, e in enumerate(log[:i]) if e[0] == "env" and e[1] in ("stop", "disconnect")]
         returned = [j for j, e in enumerate(log[:i]) if e[0] == "stop-returned"]
         during_stop = bool(called) and log[called[-1]][1] == "stop" and (not returned or returned[-1] < called[-1])
-        if not any(e[0] == "made" for e in seg) and (any(e[0] == "env" and e[1] in ("stop", "disconnect") for e in seg) or during_stop):
+        after_stop = bool(returned)  # the dial itself is judged by the connect-after-stop clause (known finding / violation)
+        if not any(e[0] == "made" for e in seg) and (any(e[0] == "env" and e[1] in ("stop", "disconnect") for e in seg) or during_stop or after_stop):
             in_flight += 1
     if in_flight:
         info["connect_in_flight_at_stop_or_disconnect"] += 1
